@@ -39,6 +39,8 @@ Ladder(o) ==
     [] o = 8 -> << RUt("HPS", "Hot", TMin + 250, TMin + 250),               \* two hot utilities with one and the same supply temperature
                    RUt("OIL", "Hot", TMin + 250, TMin + 150),               \*   (seed C09d)
                    RUt("CW", "Cold", TMin - 100, TMin - 50) >>
+    [] o = 9 -> << RUt("HWL", "Hot", TMin + 150, TMin + 50) >>              \* a hot-water loop gliding through the process range below the
+                                                                           \*   (default) top level: slope-limited against a convex GCC (seed C12e)
     [] o = 5 -> << RUt("USE", "Hot", TMin + 30, TMin + 20),                 \* for the fine lattice {120,130,140}: use at 150->140,
                    RUt("GEN", "Cold", TMin - 20, TMin - 10) >>              \*   generation at 100->110 (0.4 K below, inside the 1 K window)
 
@@ -47,9 +49,10 @@ Rev(s) == [i \in 1..Len(s) |-> s[Len(s) + 1 - i]]
 Wide(S) == { i \in 1..Len(S) : S[i].hi - S[i].lo >= 200 }
 Thick(S) == { i \in 1..Len(S) : S[i].cp >= 2 /\ S[i].hi - S[i].lo > 1 }
 Twin(S)  == { i \in 1..Len(S) : S[i].cp = 2 /\ S[i].hi - S[i].lo > 1 }       \* splits into two EQUAL branches
-SplitAt(S, z, i) ==     \* stream i cut at the lattice temperature lo + 100
-  [ S |-> SubSeq(S, 1, i - 1) \o << [S[i] EXCEPT !.hi = S[i].lo + 100], [S[i] EXCEPT !.lo = S[i].lo + 100] >> \o SubSeq(S, i + 1, Len(S)),
+SplitAtBy(S, z, i, d) ==     \* stream i cut at the temperature lo + d
+  [ S |-> SubSeq(S, 1, i - 1) \o << [S[i] EXCEPT !.hi = S[i].lo + d], [S[i] EXCEPT !.lo = S[i].lo + d] >> \o SubSeq(S, i + 1, Len(S)),
     z |-> SubSeq(z, 1, i - 1) \o << z[i], z[i] >> \o SubSeq(z, i + 1, Len(z)) ]
+SplitAt(S, z, i) == SplitAtBy(S, z, i, 100)      \* at a lattice temperature (usually an existing table row)
 Parallel(S, z, i) ==    \* stream i divided into two parallel branches of the same range
   [ S |-> SubSeq(S, 1, i - 1) \o << [S[i] EXCEPT !.cp = 1], [S[i] EXCEPT !.cp = S[i].cp - 1] >> \o SubSeq(S, i + 1, Len(S)),
     z |-> SubSeq(z, 1, i - 1) \o << z[i], z[i] >> \o SubSeq(z, i + 1, Len(z)) ]
@@ -60,6 +63,8 @@ Mirror(S) == [i \in 1..Len(S) |-> [k |-> IF S[i].k = "H" THEN "C" ELSE "H", lo |
 Variants(S, z, lo) ==
   << [g |-> "perm", S |-> Rev(S), z |-> Rev(z), lo |-> lo] >>
   \o (IF Wide(S) # {} THEN << [g |-> "split"] @@ SplitAt(S, z, Min(Wide(S))) @@ [lo |-> lo] >> ELSE <<>>)
+  \* cut off the lattice (lo + 130): the cut adds a table row of its own (seed C12e)
+  \o (IF Wide(S) # {} THEN << [g |-> "split2"] @@ SplitAtBy(S, z, Max(Wide(S)), 130) @@ [lo |-> lo] >> ELSE <<>>)
   \o (IF Thick(S) # {} THEN << [g |-> "parallel"] @@ Parallel(S, z, Min(Thick(S))) @@ [lo |-> lo] >> ELSE <<>>)
   \o << [g |-> "zoneswap", S |-> S, z |-> [i \in 1..Len(z) |-> IF z[i] = 1 THEN 2 ELSE IF z[i] = 2 THEN 1 ELSE z[i]], lo |-> lo] >>
   \o << [g |-> "nest", S |-> S, z |-> z, lo |-> lo] >>          \* zone 2 labelled "Z2/U2/V2": three process levels deep
